@@ -128,6 +128,18 @@ def main():
             except Exception:
                 meta = {"raw": open(mp).read()}
         meta["property"] = pid
+        # a later re-run with --skip-tests (after a check was strengthened) keeps the test confirmation of the first run
+        old_p = os.path.join(dst, "meta.json")
+        if args.skip_tests and os.path.exists(old_p):
+            try:
+                old = json.load(open(old_p)).get("confirmed_by_coordinator", {})
+                for k2 in ("tests_run", "pristine_passing_in_scope", "still_passing_with_patch", "baseline_tests_lost",
+                           "baseline_stable_in_scope", "baseline_stable_still_passing"):
+                    if k2 in old and k2 not in res:
+                        res[k2] = old[k2]
+                res["tests_from_earlier_confirmation_at"] = old.get("at")
+            except Exception:
+                pass
         meta["confirmed_by_coordinator"] = res
         json.dump(meta, open(os.path.join(dst, "meta.json"), "w"), indent=1)
     return 0 if ok else 1
